@@ -142,19 +142,33 @@ func TestVerifCadenceC09(t *testing.T) {
 		cases = append(cases,
 			vC09Case{Kind: "ping", Ms: 200, DurMs: 1500},
 			vC09Case{Kind: "informer", Ms: 400, DurMs: 1500},
-			vC09Case{Kind: "informer", Ms: 400, Errs: []bool{false, true, false, false, true, false}, DurMs: 1500})
+			vC09Case{Kind: "informer", Ms: 400, Errs: []bool{false, true, false, false, true, false}, DurMs: 1500},
+			// an outage: many publish errors in a row (the retry delay must stay a quarter of the time left, whatever their number)
+			vC09Case{Kind: "informer", Ms: 400, Errs: []bool{false, true, true, true, true, true, true, false, false}, DurMs: 2200})
 		for len(cases) < n {
 			c := vC09Case{Kind: "informer", Ms: r.rng(3, 8) * 100, DurMs: 1800}
 			if r.chance(35) {
 				c.Kind = "ping"
 				c.Ms = r.rng(2, 4) * 100
 			} else {
-				prev := false
-				for k := 0; k < 12; k++ { // never two errors in a row (that is a peer that cannot publish)
-					e := !prev && r.chance(35)
-					c.Errs = append(c.Errs, e)
-					prev = e
+				run := 0 // errors still to come in the current outage
+				for k := 0; k < 14; k++ {
+					if run == 0 && r.chance(30) {
+						run = 1
+						if r.chance(40) {
+							run = r.rng(2, 6) // several publish errors in a row
+						}
+					}
+					c.Errs = append(c.Errs, run > 0)
+					if run > 0 {
+						run--
+						if run == 0 {
+							c.Errs = append(c.Errs, false)
+							k++
+						}
+					}
 				}
+				c.DurMs = 2400
 			}
 			cases = append(cases, c)
 		}
